@@ -66,6 +66,15 @@ CHECKS['C06'] = ('exploration',
          'homtrans, h2e/e2h, qvmul); poses holding 1..5 distinct values x one point; (XY)p = X(Yp) and X^-1(Xp) = p on all generator pairs.',
          'Bounded to the enumerated poses and points. Reference R p + t in float64 (data spans <= 1e12).',
          'DESIGN.md 3/C06')
+CHECKS['C20'] = ('exploration',
+         'exhaustive class-pair/length products + complete integer basis grids (exact float arithmetic) + magnitude ladders',
+         'All ordered pairs of the four spatial-vector classes x + - neg x lengths; cross-product matrices, duality and inertia '
+         'identities decided on complete small-integer grids (multilinear identities: {0,1}^n grids and their dilations by 2 and 3, '
+         'exact equality) and re-checked to 1e-9 on magnitudes 1e-6..1e6; SE3 premultiplication over exact signed-permutation poses '
+         'and the generator product; single- and multi-valued operands.',
+         'Polynomial-identity completeness assumes the per-variable degree bound read off the code (tested by the dilated grids and a '
+         'branch-freeness monitor). Multi-valued SpatialInertia / multi-valued SE3 left operands are outside the statement.',
+         'DESIGN.md 2.3, 3/C20')
 PENDING = {}
 
 def main():
